@@ -27,7 +27,18 @@ def _first_rule_stats(ctx):
             accepted_by_both += 1
         if g and not g.startswith("pre-ok") and g != "reset":
             go_out[g.split(" ", 1)[0]] += 1
-    return dict(rejections_by_first_rule=dict(sorted(rules.items(), key=lambda kv: (-kv[1], kv[0]))),
+    # every rule name S can reject with (string literals `area.rule` of the two specification files)
+    import re
+    declared = set()
+    for fn in ("Zrnt/Beacon/Spec/BlockOps.lean", "Zrnt/Beacon/Spec/BlockTransition.lean"):
+        try:
+            src = open(os.path.join(core.LEAN, fn)).read()
+        except OSError:
+            continue
+        declared |= set(re.findall(r'"([a-z_0-9]+\.[a-z_0-9]+)"', src))
+    fired = set(r.replace("_out_of_range_out_of_range", "_out_of_range") for r in rules)
+    never = sorted(d for d in declared if d not in fired)
+    return dict(rules_declared_in_S=len(declared), rules_never_first=never, rejections_by_first_rule=dict(sorted(rules.items(), key=lambda kv: (-kv[1], kv[0]))),
                 rules_that_fired_first=len(rules),
                 mutants_accepted_by_spec_and_code=accepted_by_both,
                 go_outcomes=dict(go_out))
